@@ -9,50 +9,77 @@ from excel2pycl.src.translators.abstract_translator import AbstractTranslator
 class ExpressionTokenTranslator(AbstractTranslator):
     _DATE_TOKENS = [DateControlConstructionToken, TodayControlConstructionToken]
 
+    _COMPARE_TOKENS = (EqOperatorToken, NotEqOperatorToken, GtOperatorToken, GtOrEqualOperatorToken,
+                       LtOperatorToken, LtOrEqualOperatorToken)
+
     @classmethod
     def translate(cls, token: ExpressionToken | OneLeftOperandExpressionToken, excel: Excel, context: Context) -> str:
         from excel2pycl.src.translators.operand_token_translator import OperandTokenTranslator
+
+        if isinstance(token, OneLeftOperandExpressionToken):
+            left_operand = OperandTokenTranslator.translate(token.left_operand, excel, context)
+            return f'self._normalize_float_number({left_operand} / 100)'
+
+        return cls._emit(cls._flatten(token, excel, context), excel, context)
+
+    @classmethod
+    def _flatten(cls, token: ExpressionToken, excel: Excel, context: Context) -> list:
+        """
+        The grammar is right-recursive (operand, operator, the rest), so the operands and operators of one bracket level
+        are collected from left to right first: ('operand', code) | ('operator', token). A bracketed part is one operand.
+        """
+        from excel2pycl.src.translators.operand_token_translator import OperandTokenTranslator
+
+        items = []
+        while token is not None:
+            left_operand, operator, right_operand = token.left_operand, token.operator, token.right_operand
+
+            if left_operand is not None:
+                if left_operand.__class__ is ExpressionToken:
+                    code = f'({cls.translate(left_operand, excel, context)})'
+                elif left_operand.__class__ is OneLeftOperandExpressionToken:
+                    code = cls.translate(left_operand, excel, context)
+                else:
+                    code = OperandTokenTranslator.translate(left_operand, excel, context)
+                items.append(('operand', code))
+
+            if operator is not None:
+                items.append(('operator', operator))
+
+            if right_operand is not None and token.right_brackets:
+                items.append(('operand', f'({cls.translate(right_operand, excel, context)})'))
+                break
+
+            token = right_operand
+
+        return items
+
+    @classmethod
+    def _emit(cls, items: list, excel: Excel, context: Context) -> str:
+        """
+        Excel's precedence: comparisons bind loosest, then &, then the arithmetic operators (whose order Python shares,
+        so they are written out as they stand); equal levels associate to the left.
+        """
         from excel2pycl.src.translators.operator_sub_token_translator import OperatorSubTokenTranslator
 
-        operator, left_operand, left_brackets, right_brackets, right_operand = token.operator, token.left_operand, \
-            None, None, None
-
-        if isinstance(token, ExpressionToken):
-            left_brackets, right_brackets, right_operand = token.left_brackets, token.right_brackets, \
-                  token.right_operand
-
-        if left_operand:
-            token_translator = ExpressionTokenTranslator if \
-                left_operand.__class__ in [ExpressionToken, OneLeftOperandExpressionToken] \
-                else OperandTokenTranslator
-
-            left_operand = token_translator.translate(left_operand, excel, context)
-            left_operand = f'({left_operand})' if left_brackets else left_operand
-
-        if right_operand:
-            token_translator = ExpressionTokenTranslator \
-                if right_operand.__class__ is ExpressionToken else OperandTokenTranslator
-
-            right_operand = token_translator.translate(right_operand, excel, context)
-            right_operand = f'({right_operand})' if right_brackets else right_operand
-
-        if operator:
-            if operator.__class__ is AmpersandToken:
-                left_operand = f'self._excel_value_to_string({left_operand})'
-                right_operand = f'self._excel_value_to_string({right_operand})'
-
-            # попытка заставить сравнение работать так, как надо
-            compare_tokens = (EqOperatorToken, NotEqOperatorToken, GtOperatorToken, GtOrEqualOperatorToken,
-                              LtOperatorToken, LtOrEqualOperatorToken)
-
-            if isinstance(operator, compare_tokens) and left_operand and right_operand:
+        for index in range(len(items) - 2, 0, -1):
+            kind, operator = items[index]
+            if kind == 'operator' and isinstance(operator, cls._COMPARE_TOKENS):
                 operator = OperatorSubTokenTranslator.translate(operator, excel, context)
-                return f'self._compare("{operator}", {left_operand}, {right_operand})'
+                return f'self._compare("{operator}", {cls._emit(items[:index], excel, context)}, ' \
+                       f'{cls._emit(items[index + 1:], excel, context)})'
 
-            if operator.__class__ is PercentToken:
-                left_operand = f'self._normalize_float_number({left_operand} / 100)'
-                operator = None
+        parts = [[]]
+        for kind, value in items:
+            if kind == 'operator' and value.__class__ is AmpersandToken:
+                parts.append([])
             else:
-                operator = OperatorSubTokenTranslator.translate(operator, excel, context)
+                parts[-1].append((kind, value))
 
-        return f"{left_operand or ''}{operator or ''}{right_operand or ''}"
+        codes = [''.join(str(value) if kind == 'operand' else OperatorSubTokenTranslator.translate(value, excel, context)
+                         for kind, value in part) for part in parts]
+
+        if len(codes) == 1:
+            return codes[0]
+
+        return '(' + '+'.join(f'self._excel_value_to_string({code})' for code in codes) + ')'
